@@ -173,12 +173,79 @@ def parallel_experiment(rep, seed, nproc):
         shutil.rmtree(d, ignore_errors=True)
 
 
+def strace_experiment(rep, seed, n):
+    """both scripts under strace: every file opened for writing, created, renamed or removed must lie in the requested
+    output location (pybind: the --out file; MATLAB: the --out directory).  Python's own byte-code caches are switched
+    off for the traced process (PYTHONDONTWRITEBYTECODE) - they are not the tool's doing."""
+    import re
+    if shutil.which('strace') is None:
+        rep.bump('strace_unavailable')
+        return
+    d = scratch()
+    try:
+        tpl = os.path.join(d, 'tpl.example')
+        with open(tpl, 'w') as f:
+            f.write(pc.TPL)
+        for i in range(n):
+            g = G.Gen(random.Random('c14s/%d/%d' % (seed, i)), G.Profile(max_decls=4, matlab_safe=True))
+            text = G.text(G.tokens(g.module()))
+            src = os.path.join(d, 'in%d.i' % i)
+            with open(src, 'w') as f:
+                f.write(text)
+            outdir = os.path.join(d, 'ml%d' % i)
+            os.makedirs(outdir)
+            runs = [('pybind', ['scripts/pybind_wrap.py', '--src', src, '--module_name', 'mod', '--out', os.path.join(d, 'py%d.cpp' % i),
+                                '--template', tpl, '--ignore', 'no::Such'], [os.path.join(d, 'py%d.cpp' % i)]),
+                    ('matlab', ['scripts/matlab_wrap.py', '--src', src, '--module_name', 'mod', '--out', outdir, '--ignore', 'no::Such'],
+                     [outdir + os.sep])]
+            for kind, args, allowed in runs:
+                log = os.path.join(d, 'trace_%s_%d.txt' % (kind, i))
+                env = dict(os.environ, PYTHONPATH=common.REPO, PYTHONDONTWRITEBYTECODE='1', PYTHONHASHSEED='0')
+                p = subprocess.run(['strace', '-f', '-qq', '-e', 'trace=open,openat,creat,rename,renameat,renameat2,unlink,unlinkat,mkdir,mkdirat,rmdir,truncate,link,symlink',
+                                    '-o', log, '/venv/bin/python', os.path.join(common.REPO, args[0])] + args[1:],
+                                   cwd=d, env=env, capture_output=True, text=True, timeout=300)
+                if not os.path.exists(log):
+                    rep.bump('strace_failed')
+                    continue
+                bad = []
+                for line in open(log, errors='replace'):
+                    if '= -1 ' in line:
+                        continue
+                    m = re.search(r'(open|openat|creat)\((?:AT_FDCWD, )?"([^"]*)", ([A-Z_|]+)', line)
+                    if m:
+                        path, flags = m.group(2), m.group(3)
+                        if not any(x in flags for x in ('O_WRONLY', 'O_RDWR', 'O_CREAT', 'O_TRUNC', 'O_APPEND')) and m.group(1) != 'creat':
+                            continue
+                    else:
+                        m2 = re.search(r'(rename\w*|unlink\w*|mkdir\w*|rmdir|truncate|link|symlink)\((?:AT_FDCWD, )?"([^"]*)"', line)
+                        if not m2:
+                            continue
+                        path = m2.group(2)
+                    ap = os.path.normpath(os.path.join(d, path))
+                    if path in ('/dev/null', '/dev/tty') or ap.startswith('/proc/') or ap.startswith('/dev/'):
+                        continue
+                    if any(ap == a.rstrip(os.sep) or ap.startswith(a) for a in allowed):
+                        continue
+                    bad.append(line.strip()[:200])
+                rep.hit('strace/%s/%d/%d' % (kind, seed, i), True)
+                if p.returncode == 0 and bad:
+                    rep.violation({'kind': 'counterexample', 'what': '%s_wrap.py touches the file system outside its output: %s' % (kind, bad[:3]),
+                                   'input': text})
+                elif p.returncode == 0:
+                    rep.bump('strace_clean_' + kind)
+                else:
+                    rep.bump('strace_run_failed_' + kind)
+    finally:
+        shutil.rmtree(d, ignore_errors=True)
+
+
 def run(rep, tier, seed, replay=None, proof_ok=True):
     rep.coverage['rule'] = ('generated inputs run through both generators in fresh processes under 4-6 PYTHONHASHSEED '
                             'values (incl. random), 3 working directories, 3 locales: sha256 of the pybind text and of every '
                             'MATLAB file must coincide and nothing may be written outside the requested folder; histories of '
                             '2-4 wrap_file calls (with failing calls interleaved) on one PybindWrapper vs a fresh wrapper; '
-                            '16 parallel script processes in one build directory')
+                            '16 parallel script processes in one build directory; both scripts under strace: every path opened '
+                            'for writing, created, renamed or removed lies inside the requested output')
     q = pc.detect_pquirks()
     ml.ensure_tpl()
     n = 10 if tier == 'quick' else 100
@@ -204,6 +271,7 @@ def run(rep, tier, seed, replay=None, proof_ok=True):
             rep.bump('env_equal')
         rep.sample({'input': text[:200], 'runs': len(runs), 'pybind_sha': str(base.get('pybind'))[:16]}, cap=3)
     history_experiment(rep, seed, 25 if tier == 'quick' else 400, q)
+    strace_experiment(rep, seed, 3 if tier == 'quick' else 25)
     parallel_experiment(rep, seed, 16)
     shutil.rmtree(os.path.join(common.BUILD, 'tmp.%d' % os.getpid()), ignore_errors=True)
     return 0
